@@ -546,12 +546,28 @@ impl CommandAnalyzer {
         ast: &'a syn::File,
         function_name: &str,
     ) -> Option<&'a syn::ItemFn> {
-        for item in &ast.items {
-            if let syn::Item::Fn(func) = item {
+        Self::find_function_in_items(&ast.items, function_name)
+    }
+
+    /// A function of that name among `items` or in an inline module below them
+    fn find_function_in_items<'a>(
+        items: &'a [syn::Item],
+        function_name: &str,
+    ) -> Option<&'a syn::ItemFn> {
+        for item in items {
+            match item {
                 // Command names are kept without the r# prefix of a raw identifier
-                if func.sig.ident.unraw() == function_name {
+                syn::Item::Fn(func) if func.sig.ident.unraw() == function_name => {
                     return Some(func);
                 }
+                syn::Item::Mod(item_mod) => {
+                    if let Some((_, inner)) = &item_mod.content {
+                        if let Some(func) = Self::find_function_in_items(inner, function_name) {
+                            return Some(func);
+                        }
+                    }
+                }
+                _ => {}
             }
         }
         None
